@@ -36,7 +36,7 @@ def odd_backslashes_before_wildcard(q):
 
 
 CONFIGS = []
-for default in ("should", "must"):
+for default in ("".join(["sho", "uld"]), "".join(["mu", "st"])):      # equal to, but not the same object as, the builder's constants
     for nested in (None, {"n": {"x": None, "y": None, "m": ["z"]}}):
         for na in ([], ["text", "t", "o.x", "n.x", "n.y", "n.m.z"], ["t", "n.x"]):
             for opts, mwp in (({}, False), ({"t": {"match_type": "match_phrase"}, "text": {"analyzer": "english"}, "n.x": {"type": "match_phrase"}}, False),
@@ -45,7 +45,7 @@ for default in ("should", "must"):
                                 "field_options": opts, "match_word_as_phrase": mwp})
 
 EXTRA = ["a*", "t:b?c", "*", "t:*", "n.x:*", "t:\\*", "\"p  q\\nr\"", "t:\"u v\"", "t:\"w*\"", "h~", "t:h~0.8", "\"i j\"~", "t:\"i j\"~2", "k^2.5",
-         "(a b)^3", "t:[* TO 5]", "t:{1 TO *}", "t:[* TO *]", "t:[\"a b\" TO c]", "t:x^2~", "+t:y", "-t:z", "NOT t:y", "t:(y z)", "t:(y AND z)",
+         "(a b)^3", "t:[* TO 5]", "t:{1 TO *}", "t:[-1 TO 5]", "t:[ -1  TO  -5 ]", "t:{-2 TO \"a b\" ]", "[-3 TO 4}^2", "t:[* TO *]", "t:[\"a b\" TO c]", "t:x^2~", "+t:y", "-t:z", "NOT t:y", "t:(y z)", "t:(y AND z)",
          "n:(x:d^2)", "n.x:\"e f\"~1", "o.x:g~1",
          # escapes: quotes inside phrases (first / last character), escaped wildcards, escaped backslash before a real wildcard
          "t:\"he said \\\"hello\\\"\"", "\"\\\"q\\\" x\"", "t:\"a\\\"\"", "t:C\\:\\\\*", "t:x\\\\?y", "t:x\\*y", "t:x\\\\\\*", "n.x:v\\\\*", "t:\\?", "t:\\\\"]
